@@ -30,6 +30,18 @@ theorem C01_world_roundtrip (j : Job) (wf : j.WF)
   cases hen'
   exact hres'
 
+/-- **C01, restore targets.** The same for every restore target: no target (restore allocates), a pre-allocated tensor
+of the saved dtype and shape with arbitrary old contents (filled in place — a chunked tensor chunk by chunk through
+dim-0 views, in any completion order), or a tensor of a different dtype or shape (replaced by a fresh one). -/
+theorem C01_world_roundtrip_any_target (j : Job) (wf : j.WF)
+    (order : List ((Nat × Nat) × ULoc WLoc) → List ((Nat × Nat) × ULoc WLoc)) (horder : ∀ cs, (order cs).Perm cs)
+    (r : Nat) (st : RankState) (hr : j.states[r]? = some st) (p : PathId) (l : Leaf) (hpl : (p, l) ∈ st)
+    (dst : Option Ts.Serial.Tensor) (hdst : ∀ t, dst = some t → t.WF) :
+    ∃ en, worldEntry j r p l = .ok en ∧
+      restoreLeafInto (wstore j) (fun _ _ u => readUnit (wstore j) u) order dst en = .ok l :=
+  world_roundtrip_into j wf (fun _ _ u => readUnit (wstore j) u)
+    (fun u bs _ _ h _ => readUnit_of_stored _ u bs h) order horder r st hr p l hpl dst hdst
+
 /-- **C07 / C06, whole job: replicated objects are complete on every restoring rank.** The consolidated entry of a
 replicated leaf is the same whichever rank's view it is read through — ranks with index ≥ W included — and it
 restores the saved value although its units (chunks) may have been written by different ranks. -/
